@@ -43,6 +43,7 @@ type Storage struct {
 	Entries []Entry
 	Stores  int // number of successful Store calls (write log length)
 	Removes int
+	Once    bool // store-once semantics for node records: a second Store of the same id reports a duplicate record
 }
 
 func Kind(m proto.Message) int {
@@ -64,14 +65,18 @@ func (s *Storage) Store(ctx context.Context, m nodeenrollment.MessageWithId) err
 	if err != nil {
 		return err
 	}
-	s.Stores++
 	k := Kind(m)
 	for i := range s.Entries {
 		if s.Entries[i].Kind == k && s.Entries[i].Id == m.GetId() {
+			if s.Once && k == KindNode && !s.Entries[i].Gone {
+				return new(types.DuplicateRecordError)
+			}
+			s.Stores++
 			s.Entries[i].Data, s.Entries[i].Gone = b, false
 			return nil
 		}
 	}
+	s.Stores++
 	s.Entries = append(s.Entries, Entry{Kind: k, Id: m.GetId(), Data: b})
 	return nil
 }
@@ -379,12 +384,24 @@ type Script struct {
 	Errs  []error
 	I     int
 	Hold  chan struct{} // when set: an exhausted script blocks until the harness closes this channel ("the base listener is closed")
+	Final error         // what an exhausted script reports (default net.ErrClosed): a closed listener may report another error
+	Polls int           // Accept calls made after the script was exhausted
 }
 
 func (l *Script) Accept() (net.Conn, error) {
 	if l.I >= len(l.Conns) {
 		if l.Hold != nil {
 			<-l.Hold
+		}
+		l.Polls++
+		// a consumer that keeps polling a listener which has reported its failure never stops: flagged here, because an
+		// endless loop is otherwise only an exceeded unwinding bound
+		vf.Assert("base-listener-not-polled-again-after-it-failed", l.Polls <= 3)
+		if l.Polls > 3 {
+			return nil, net.ErrClosed // let the run end; the failed assertion above is the verdict
+		}
+		if l.Final != nil {
+			return nil, l.Final
 		}
 		return nil, net.ErrClosed
 	}
